@@ -5,6 +5,7 @@ import PjVerif.Drive.Sched
 import PjVerif.Drive.Dump
 import PjVerif.Drive.Query
 import PjVerif.Drive.Clone
+import PjVerif.Drive.CritPath
 open Lean Pj.Drive
 
 def dispatch (j : Json) : Json :=
@@ -15,6 +16,7 @@ def dispatch (j : Json) : Json :=
   | "dumpenv" => runDump j
   | "query" => runQuery j
   | "clone" => runClone j
+  | "cp" => runCp j
   | f => mkObj [("id", fld j "id"), ("error", .str s!"unknown family {f}")]
 
 def main : IO Unit := do
